@@ -8,7 +8,7 @@ use poulpy_hal::{
         VecZnxRotateAssignTmpBytes, VecZnxRshAssign, VecZnxRshTmpBytes, VecZnxSub, VecZnxSubAssign, VecZnxSubNegateAssign,
         VecZnxZero,
     },
-    layouts::{Backend, DataMut, DataRef, GaloisElement, Scratch},
+    layouts::{Backend, DataMut, DataRef, GaloisElement, Scratch, ZnxZero},
 };
 
 use crate::{
@@ -652,8 +652,16 @@ where
         assert!(res.rank() >= a.rank());
 
         let base2k: usize = res.base2k().into();
-        for i in 0..res.rank().as_usize() + 1 {
+        let a_cols: usize = a.rank().as_usize() + 1;
+        let res_cols: usize = res.rank().as_usize() + 1;
+        for i in 0..a_cols {
             self.vec_znx_lsh(base2k, k, res.data_mut(), i, a.data(), i, scratch);
+        }
+        // columns `a` does not have are zero
+        for i in a_cols..res_cols {
+            for j in 0..res.size() {
+                res.data_mut().zero_at(i, j);
+            }
         }
     }
 
@@ -678,7 +686,7 @@ where
         assert!(res.rank() >= a.rank());
 
         let base2k: usize = res.base2k().into();
-        for i in 0..res.rank().as_usize() + 1 {
+        for i in 0..a.rank().as_usize() + 1 {
             self.vec_znx_lsh_add_into(base2k, k, res.data_mut(), i, a.data(), i, scratch);
         }
     }
@@ -704,7 +712,7 @@ where
         assert!(res.rank() >= a.rank());
 
         let base2k: usize = res.base2k().into();
-        for i in 0..res.rank().as_usize() + 1 {
+        for i in 0..a.rank().as_usize() + 1 {
             self.vec_znx_lsh_sub(base2k, k, res.data_mut(), i, a.data(), i, scratch);
         }
     }
